@@ -233,6 +233,35 @@ class SymStr(object):
                 raise core.Unsupported("upper() of a non-ASCII symbolic character")
         return SymStr(out)
 
+    def _strip(self, chars, left, right):
+        if chars is None:
+            cs = tuple(" \t\n\r\x0b\x0c")
+        else:
+            cs = SymStr.of(chars).e
+        es = list(self.e)
+
+        def member(c):
+            for x in cs:
+                if char_eq(c, x):
+                    return True
+            return False
+        if right:
+            while es and member(es[-1]):
+                es.pop()
+        if left:
+            while es and member(es[0]):
+                es.pop(0)
+        return SymStr(es)
+
+    def rstrip(self, chars=None):
+        return self._strip(chars, False, True)
+
+    def lstrip(self, chars=None):
+        return self._strip(chars, True, False)
+
+    def strip(self, chars=None):
+        return self._strip(chars, True, True)
+
     def concrete(self):
         """The str if every element is concrete, else None."""
         if all(isinstance(c, str) for c in self.e):
